@@ -96,8 +96,9 @@ fn fresh(pi: usize, r: usize) -> Result<String, String> {
     }
     let exe = std::env::current_exe().unwrap();
     let mut lines = vec![];
-    for _ in 0..r {
-        let out = std::process::Command::new(&exe).arg("c15obs").arg(pi.to_string()).output().map_err(|e| e.to_string());
+    for k in 1..=r {
+        // fresh process number k runs under hash-seed index k
+        let out = std::process::Command::new(&exe).env("VERIF_DET_RANDOM", k.to_string()).arg("c15obs").arg(pi.to_string()).output().map_err(|e| e.to_string());
         match out {
             Ok(o) => lines.push(String::from_utf8_lossy(&o.stdout).lines().last().unwrap_or("").to_string()),
             Err(e) => lines.push(format!("spawn error {e}")),
@@ -112,6 +113,12 @@ fn params(tier: Tier) -> (u32, usize) {
     match tier {
         Tier::Quick => (3, 3),
         Tier::Thorough => (4, 12),
+    }
+}
+fn n_seeds(tier: Tier) -> u64 {
+    match tier {
+        Tier::Quick => 5,
+        Tier::Thorough => 11,
     }
 }
 fn decode(idx: u64, d: u32) -> Vec<usize> {
@@ -139,12 +146,30 @@ impl Prop for C15 {
         let hist = decode(idx, d);
         let mut fails = vec![];
         let last = *hist.last().unwrap();
-        for &pi in &hist[..hist.len() - 1] {
-            let _ = observe(pi);
+        // The history runs on a thread of its own, started under hash-seed index `seed`: std seeds the HashMaps of a
+        // thread from getrandom, which the harness owns (main.rs), so the case is a function of (history, seed) and
+        // replays exactly; the seed index cycles with the case index, so every program is observed under every index.
+        let seed = 1 + idx % n_seeds(tier);
+        if !crate::hash_seed_controlled() {
+            fails.push(Fail { clause: "harness_panic".into(), detail: "VERIF_DET_RANDOM is not set: hash seeds would not be controlled (run through ./check)".into() });
         }
-        let o = observe(last);
-        // compile the observed program once more: repeated compilation in one process
-        let o2 = observe(last);
+        crate::set_hash_seed(seed);
+        let h2 = hist.clone();
+        let (o, o2) = std::thread::Builder::new()
+            .stack_size(64 << 20)
+            .spawn(move || {
+                quiet_panics();
+                for &pi in &h2[..h2.len() - 1] {
+                    let _ = observe(pi);
+                }
+                let o = observe(last);
+                // compile the observed program once more: repeated compilation in one process
+                let o2 = observe(last);
+                (o, o2)
+            })
+            .unwrap()
+            .join()
+            .unwrap_or_else(|_| panic!("history thread panicked"));
         let names: Vec<&str> = hist.iter().map(|&i| PROGRAMS[i].0).collect();
         let mut outcome = "deterministic";
         if obs_line(&o) != obs_line(&o2) {
@@ -171,7 +196,7 @@ impl Prop for C15 {
             outcome: outcome.into(),
             fails,
             tags: vec![format!("last:{}", PROGRAMS[last].0)],
-            repr: json!({"history": names, "observation": obs_line(&o), "summary": o.summary}),
+            repr: json!({"history": names, "hash_seed_index": seed, "observation": obs_line(&o), "summary": o.summary}),
             counters: vec![("states".into(), 1), ("transitions".into(), hist.len() as u64 + 1), ("traces".into(), 1), (format!("observed_{}", PROGRAMS[last].0), 1)],
         }
     }
@@ -186,11 +211,12 @@ impl Prop for C15 {
         let (d, r) = params(tier);
         Descr {
             rule: format!(
-                "{} programs exercising every table the compiler keys by name or hash (stateful functions, closures and lambda labels, enums and constructors, records and aliases, modules / use / re-export / wildcard, macros and lifted numbers, many functions and math imports, boxed recursive types, scheduler, tuples and multi-word if); every history of 1..={d} compilations is run inside a worker process (on top of whatever that worker compiled before) and the observation of the last one — hash of the bytecode listing, of the WASM bytes, the dsp state layout, VM and WASM outputs of 6 samples — is compared with a second compilation right after it and with the observation from {r} fresh processes (which must agree among themselves). states = histories; non-trivial = every case.",
-                PROGRAMS.len()
+                "{} programs exercising every table the compiler keys by name or hash (stateful functions, closures and lambda labels, enums and constructors, records and aliases, modules / use / re-export / wildcard, macros and lifted numbers, many functions and math imports, boxed recursive types, scheduler, tuples and multi-word if); every history of 1..={d} compilations is run inside a worker process (on top of whatever that worker compiled before) and the observation of the last one — hash of the bytecode listing, of the WASM bytes, the dsp state layout, VM and WASM outputs of 6 samples — is compared with a second compilation right after it and with the observation from {r} fresh processes (which must agree among themselves). The HashMap seeds are owned by the harness (getrandom interposed): fresh process k runs under hash-seed index k = 1..{r}, and the history of case i runs on a new thread under index 1 + i mod {}, so the explored set of seeds is stated and every case replays exactly. states = histories; non-trivial = every case.",
+                PROGRAMS.len(),
+                n_seeds(tier)
             ),
-            assumptions: vec![format!("the hash-seed dimension of HashMap iteration order is not enumerable: it is covered by {r} fresh processes per program, which is sampling and labelled so"), "worker processes are recycled every 40 cases, so histories also differ in their (unrecorded) prefix".into()],
-            bounds: json!({"programs": PROGRAMS.len(), "history_length": d, "fresh_processes_per_program": r}),
+            assumptions: vec![format!("the hash-seed dimension of HashMap iteration order is not enumerable (2^128 seeds): {r} seed indices for fresh processes and {} for histories are explored, chosen by the harness, not drawn at random; seed-dependent behaviour that needs another seed is not seen", n_seeds(tier)), "worker processes are recycled every 40 cases, so histories also differ in their (unrecorded) prefix".into()],
+            bounds: json!({"programs": PROGRAMS.len(), "history_length": d, "fresh_processes_per_program": r, "hash_seed_indices_fresh": r, "hash_seed_indices_histories": n_seeds(tier)}),
             shape: "S",
         }
     }
